@@ -53,6 +53,9 @@ def _get_parser():
         _parser_cache = pycparser.CParser()
     return _parser_cache
 
+_simple_escapes = {'n': 10, 't': 9, 'r': 13, '0': 0, 'a': 7, 'b': 8,
+                   'f': 12, 'v': 11}
+
 def _workaround_for_old_pycparser(csource):
     # Workaround for a pycparser issue (fixed between pycparser 2.10 and
     # 2.14): "char*const***" gives us a wrong syntax tree, the same as
@@ -906,6 +909,9 @@ class Parser:
                 raise CDefError("invalid constant %r" % (s,))
             elif s[0] == "'" and s[-1] == "'" and (
                     len(s) == 3 or (len(s) == 4 and s[1] == "\\")):
+                if len(s) == 4:
+                    # simple escape sequences: '\n', '\0', ...
+                    return _simple_escapes.get(s[2], ord(s[2]))
                 return ord(s[-2])
             else:
                 raise CDefError("invalid constant %r" % (s,))
